@@ -37,7 +37,10 @@ func NewSim(c Cfg, logs, left map[int][]int) *Sim {
 	s := &Sim{cfg: c, wk: make([]simWorker, c.NW()), ch: map[int][]int{}, want: map[int][]int{}, need: map[int][]int{}, live: true}
 	for k, v := range logs {
 		s.want[k] = append([]int(nil), v...)
-		s.need[k] = append(append([]int(nil), v...), left[k]...)
+		s.need[k] = append([]int(nil), v...)
+		if c.Buf > 0 {
+			s.need[k] = append(s.need[k], left[k]...)
+		}
 	}
 	return s
 }
